@@ -274,6 +274,9 @@ def run_requests(ctx, hbin, drv, mc, reqs, label, stats):
 
 def run(ctx):
     os.makedirs(C.BUILD + "/tmp", exist_ok=True)
+    # the kernel evaluations behind `decide +kernel` allocate and free a lot; mimalloc's default of purging freed pages
+    # after 10 ms costs more system time than the evaluation itself (measured with strace: 26k madvise calls per module)
+    os.environ.setdefault("MIMALLOC_PURGE_DELAY", "2000")
     rep_path = os.path.join(C.BUILD, "tmp", "c07_translator_%d.json" % os.getpid())
     rc, out = C.sh(["python3", TRANSLATOR, "--report", rep_path], timeout=600)
     if rc != 0:
